@@ -266,6 +266,43 @@ impl<'a> Scn<'a> {
         self.on_disk = on_disk;
         self.rep.bucket(&format!("packs-{}", files.len().min(5)));
     }
+    fn objs_of(&mut self, p: &Path) -> Vec<gix_hash::ObjectId> {
+        let name = p.file_name().unwrap().to_string_lossy().to_string();
+        if let Some(o) = self.idx_cache.get(&name) {
+            return o.clone();
+        }
+        let o = idx_objects(&self.repo.dir, p);
+        self.idx_cache.insert(name, o.clone());
+        o
+    }
+    /// Remove (by hand, like a concurrent `git repack -d` / `git gc` would) one pack all of whose objects are also
+    /// in another pack or loose: the next refresh sees a change that ONLY removes an index. `false` if there is none.
+    fn remove_redundant_pack(&mut self, pick: usize) -> bool {
+        let files = listing(&self.repo.pack_dir());
+        let loose: BTreeSet<gix_hash::ObjectId> = loose_objects(&self.repo.objects()).into_iter().collect();
+        let objs: Vec<Vec<gix_hash::ObjectId>> = files.iter().map(|p| self.objs_of(p)).collect();
+        let mut cand = Vec::new();
+        for i in 0..files.len() {
+            let mut others = loose.clone();
+            for (j, o) in objs.iter().enumerate() {
+                if j != i {
+                    others.extend(o.iter().cloned());
+                }
+            }
+            if objs[i].iter().all(|o| others.contains(o)) {
+                cand.push(i);
+            }
+        }
+        if cand.is_empty() {
+            return false;
+        }
+        let p = &files[cand[pick % cand.len()]];
+        for ext in ["idx", "pack", "rev", "bitmap", "mtimes", "keep"] {
+            let _ = std::fs::remove_file(p.with_extension(ext));
+        }
+        self.rep.bucket("rm-redundant-pack");
+        true
+    }
     fn new_handle(&mut self) {
         self.steps.push("N".into());
         let h = self.store.to_handle_arc();
@@ -423,6 +460,124 @@ fn corpus(rep: &mut Report, sc: &Scratch) {
         }
         s.finish("corpus");
     }
+    // (e) a refresh that ONLY removes an index (a redundant pack disappears, nothing new appears): the slot is
+    // cleared, so the generation has to change although nothing is added. Handles 0 and 2 have the index of
+    // the removed pack but not its pack: handle 0 comes back while the slot is empty (unreachable!() in
+    // load_pack() without the new generation), handle 2 after the slot was given to the next pack (another
+    // object's bytes without it).
+    let absent = gix_hash::ObjectId::from_bytes_or_panic(&[0xee; 20]);
+    for slots in 1..=4usize {
+        let mut s = Scn::new(rep, sc.join(format!("corpus-e{slots}")), slots);
+        let c1 = s.repo.commit(0);
+        git_ok(&s.repo.dir, &["repack", "-adq"], None);
+        s.sync_disk();
+        for _ in 0..3 {
+            s.new_handle();
+        }
+        // no loose copy yet: the lookups have to load the index of the pack (and only the index)
+        s.contains(0, c1);
+        s.contains(2, c1);
+        s.metrics();
+        // loose copies of everything in the pack (`unpack-objects` skips what the repository has, so the pack is
+        // out of sight while it runs; no API call in between, the store does not see that)
+        {
+            let p = listing(&s.repo.pack_dir()).pop().expect("one pack");
+            let aside = s.repo.dir.join("aside");
+            std::fs::create_dir_all(&aside).unwrap();
+            let exts: Vec<&str> = ["idx", "pack", "rev"].into_iter().filter(|e| p.with_extension(e).is_file()).collect();
+            for e in &exts {
+                std::fs::rename(p.with_extension(e), aside.join(format!("p.{e}"))).unwrap();
+            }
+            let data = std::fs::read(aside.join("p.pack")).unwrap();
+            let out = git(&s.repo.dir, &["unpack-objects", "-q"], Some(&data));
+            assert!(out.ok, "unpack-objects");
+            for e in &exts {
+                std::fs::rename(aside.join(format!("p.{e}")), p.with_extension(e)).unwrap();
+            }
+        }
+        s.sync_disk();
+        s.metrics();
+        assert!(s.remove_redundant_pack(0), "the pack is redundant to the loose objects");
+        s.sync_disk();
+        s.contains(1, absent);
+        s.metrics();
+        s.find(0, c1);
+        s.metrics();
+        let c2 = s.repo.commit(0);
+        git_ok(&s.repo.dir, &["repack", "-dq"], None);
+        s.sync_disk();
+        s.contains(1, c2);
+        s.metrics();
+        s.find(2, c1);
+        s.metrics();
+        for o in s.repo.all_objects() {
+            s.find(0, o);
+            s.find(1, o);
+            s.find(2, o);
+        }
+        s.metrics();
+        s.finish("corpus");
+    }
+    // (f) the same with the slot map full of other packs that stay: pack A (slot 0), fillers, then an all-in-one
+    // pack in the last slot makes A redundant; A is removed alone; the next new pack wraps around into slot 0.
+    for slots in 2..=4usize {
+        let mut s = Scn::new(rep, sc.join(format!("corpus-f{slots}")), slots);
+        let c1 = s.repo.commit(0);
+        git_ok(&s.repo.dir, &["repack", "-adq"], None);
+        s.sync_disk();
+        for _ in 0..3 {
+            s.new_handle();
+        }
+        s.contains(0, c1);
+        s.contains(2, c1);
+        for _ in 0..slots - 2 {
+            let c = s.repo.commit(0);
+            git_ok(&s.repo.dir, &["repack", "-dq"], None);
+            s.sync_disk();
+            s.contains(1, c);
+        }
+        let c = s.repo.commit(0);
+        git_ok(&s.repo.dir, &["repack", "-aq"], None);
+        git_ok(&s.repo.dir, &["prune-packed", "-q"], None);
+        s.sync_disk();
+        s.contains(1, c);
+        s.metrics();
+        // remove pack A (the one holding c1 that handle 0 knows): the smallest index of the redundant ones is not
+        // necessarily A, so look for it
+        let files = listing(&s.repo.pack_dir());
+        let a = files
+            .iter()
+            .filter(|p| {
+                let o = s.idx_cache.get(&p.file_name().unwrap().to_string_lossy().to_string()).cloned();
+                o.map_or(false, |o| o.contains(&c1))
+            })
+            .min_by_key(|p| std::fs::metadata(p).map(|m| m.len()).unwrap_or(0))
+            .cloned()
+            .expect("pack A");
+        for ext in ["idx", "pack", "rev"] {
+            let _ = std::fs::remove_file(a.with_extension(ext));
+        }
+        s.rep.bucket("rm-redundant-pack");
+        s.sync_disk();
+        s.contains(1, absent);
+        s.metrics();
+        s.find(0, c1);
+        s.metrics();
+        let c2 = s.repo.commit(0);
+        git_ok(&s.repo.dir, &["repack", "-dq"], None);
+        s.sync_disk();
+        s.contains(1, c2);
+        s.metrics();
+        s.find(2, c1);
+        s.metrics();
+        for o in s.repo.all_objects() {
+            s.find(0, o);
+            s.find(1, o);
+            s.find(2, o);
+        }
+        s.metrics();
+        s.finish("corpus");
+    }
 }
 
 fn random_scenario(rep: &mut Report, sc: &Scratch, rng: &mut Rng, idx: u64) {
@@ -502,6 +657,18 @@ fn random_scenario(rep: &mut Report, sc: &Scratch, rng: &mut Rng, idx: u64) {
             }
         } else if r < 62 {
             s.metrics();
+        } else if r < 66 {
+            // an all-in-one pack next to the existing ones (which become redundant)
+            if packs + 1 <= slots {
+                git_ok(&s.repo.dir, &["repack", "-aq"], None);
+                s.rep.bucket("git-repack-a");
+                s.sync_disk();
+            }
+        } else if r < 73 {
+            // a change that only removes: a redundant pack disappears, nothing is added
+            if s.remove_redundant_pack(rng.usize(8)) {
+                s.sync_disk();
+            }
         } else if !live.is_empty() {
             let h = *rng.pick(&live);
             let known: Vec<gix_hash::ObjectId> = s.objnum.keys().cloned().collect();
